@@ -24,6 +24,7 @@ Oracle: the documented resolution computed from the files alone (`doc_resolve`).
 """
 import builtins
 import os
+import re
 import shutil
 import tempfile
 
@@ -636,6 +637,17 @@ class Prop(Check):
         "Imp.C25_once",
         "Imp.C25_fqn",
         "Imp.C25_terminates",
+        "Imp.C25_missing_sound",
+        "Imp.C25_unexisting_general",
+        "Imp.C25_unexisting_sound_partial",
+        "Imp.C25_unexisting_sound_full_false",
+        "Imp.C25_loads",
+        "Imp.C25_loads_general",
+        "Imp.C25_loads_check",
+        "Imp.C25_connected_loaded",
+        "Imp.C25_loaded_resolvable",
+        "Imp.C25_load_iff",
+        "Imp.C25_opened_exact",
     ]
     DRIVER = "Drivers/Imp.lean"
     QUICK_CASES = 340
@@ -652,7 +664,10 @@ class Prop(Check):
     MODELLED = ("hand-modelled: metamodel.py _enter_namespace/_leave_namespace/_new_import/_init_class/_cls_fqn/__getitem__ and "
                 "the load order of lang.py (imports, classes, second pass) as Imp.loadMain; tie X: classes and _tx_fqn per "
                 "namespace, attribute class and PEG-rule class of every reference (the match rule of a link included), "
-                "metamodel[name], opened files, duplicate class objects, fqn trees with the values of parsed texts; not "
+                "metamodel[name], opened files, duplicate class objects, fqn trees with the values of parsed texts; failed "
+                "loads: the file reported missing, and the name reported unresolvable must be one of the references of the "
+                "failing file that the model cannot resolve at that point; the files-only specification of the theorems "
+                "(Lean docResolve per reference, docLoadable) against the oracle's doc_resolve and the outcome of the load; not "
                 "modelled: referenced languages (reference statement), duplicate rule names inside one file, user classes, "
                 "rule kinds (a match rule is a rule without references)")
     ASSUMPTIONS = [
@@ -946,7 +961,16 @@ class Prop(Check):
                 finally:
                     builtins.open = real_open
             except TextXSemanticError as e:
-                return {"load": "semantic", "opened": opened, "msg": str(e).replace(tmp, "<tmp>")[:200]}
+                # which name could not be resolved ("Unexisting rule" for rule references, "Unknown class/rule" for the
+                # class of a link): compared with the references the model cannot resolve at that point
+                mt = re.search(r'(?:Unexisting rule|Unknown class/rule) "([^"]+)"', e.message if hasattr(e, "message") else str(e))
+                return {"load": "semantic", "opened": opened, "name": mt.group(1) if mt else None,
+                        "msg": str(e).replace(tmp, "<tmp>")[:200]}
+            except FileNotFoundError as e:
+                fn = os.path.realpath(e.filename) if isinstance(e.filename, str) else ""
+                file = os.path.relpath(fn, tmp)[:-3].replace(os.sep, ".") if fn.startswith(tmp + os.sep) and fn.endswith(".tx") else None
+                return {"load": "FileNotFoundError", "opened": opened, "file": file,
+                        "msg": str(e).replace(tmp, "<tmp>")[:200]}
             except TextXError as e:
                 return {"load": type(e).__name__, "opened": opened, "msg": str(e).replace(tmp, "<tmp>")[:200]}
             except RecursionError:
@@ -1114,7 +1138,60 @@ class Prop(Check):
                 "files": [{"ns": f["ns"], "imports": f["imports"],
                            "rules": [{"name": r["name"], "refs": [{"q": x["q"], "n": x["n"]} for x in xrefs(r)]}
                                      for r in f["rules"]]} for f in case["files"]],
-                "queries": [{"q": q["q"], "n": q["n"]} for q in case["queries"]]}
+                "queries": [{"q": q["q"], "n": q["n"]} for q in case["queries"]],
+                "closure": self.closure_ns(case)}
+
+    @staticmethod
+    def closure_ns(case):
+        """the files connected to the main file (existing ones; None when the main file itself is missing)"""
+        files = files_of(case)
+        if case["main"] not in files:
+            return None
+        seen, todo = [], [case["main"]]
+        while todo:
+            x = todo.pop(0)
+            if x in seen or x not in files:
+                continue
+            seen.append(x)
+            todo.extend(abs_imports(files[x]))
+        return [files[x]["ns"] for x in seen]
+
+    def compare_spec(self, case, obs, m):
+        """The files-only specification the theorems are stated with (Lean `docResolve`, `docLoadable`) against the
+        oracle's reading of the property (`doc_resolve`) and against what the implementation did."""
+        files = files_of(case)
+        rules = [(nstr(f["ns"]), r) for f in case["files"] for r in f["rules"]]
+        doc = m.get("doc")
+        if doc is None or len(doc) != len(rules):
+            return f"model: documented-resolution table missing or of the wrong length ({doc})"
+        for (ns, r), (dns, drule, ds) in zip(rules, doc):
+            refs = xrefs(r)
+            if nstr(dns) != ns or drule != r["name"] or len(ds) != len(refs):
+                return f"model: documented-resolution table out of step at {ns}:{r['name']}"
+            for x, d in zip(refs, ds):
+                t = doc_resolve(files, ns, x)
+                if t == OUT:
+                    continue
+                want = None if t is None else {"base": t[1]} if t[0] == BASENS else {"rule": [t[0], t[1]]}
+                got = None if d is None else d if "base" in d else {"rule": [nstr(d["rule"][0]), d["rule"][1]]}
+                if got != want:
+                    return (f"documented resolution of {x['n']} (q={x['q']}) in {ns}:{r['name']}: Lean docResolve {got}, "
+                            f"oracle doc_resolve {want}")
+        clos = closure(case)
+        if m.get("loadable") is True and not self.back_edges(case):
+            # C25_loads_check: closed set of existing files, every reference resolvable by the documentation, no cycle
+            if "error" in m:
+                return f"model: docLoadable holds on an acyclic tree, yet the model does not load ({m['error']})"
+            if obs["load"] != "ok":
+                return (f"every file exists and every reference is resolvable by the documentation (docLoadable), no "
+                        f"import cycle, yet the implementation fails: {obs['load']} {obs.get('msg', '')}")
+        if clos is not None and not self.back_edges(case) and obs["load"] == "ok" and m.get("loadable") is False:
+            # C25_load_iff: with qualified names naming the file itself or a direct import, loading implies docLoadable
+            direct = all(x["q"] is None or nstr(x["q"]) == ns or nstr(x["q"]) in abs_imports(files[ns])
+                         for ns in clos for r in files[ns]["rules"] for x in xrefs(r))
+            if direct:
+                return "the grammars load on an acyclic tree with direct qualified names, yet docLoadable is false"
+        return None
 
     @staticmethod
     def model_view(out):
@@ -1146,11 +1223,23 @@ class Prop(Check):
         if "err" in out:
             return f"model did not answer: {out}"
         m = out["out"]
+        bad = self.compare_spec(case, obs, m)
+        if bad:
+            return bad
         if "error" in m:
             want = {"unexisting": "semantic", "missing": "FileNotFoundError"}[m["error"]]
             if obs["load"] != want:
                 return (f"model: loading fails ({m['error']} {nstr(m.get('ns', []))} {m.get('ref')}), "
                         f"implementation: {obs['load']} {obs.get('msg', '')}")
+            if m["error"] == "missing" and obs.get("file") != nstr(m["ns"]):
+                return f"missing file: implementation {obs.get('file')} ({obs.get('msg', '')}), model {nstr(m['ns'])}"
+            if m["error"] == "unexisting":
+                # the implementation walks the rules of the failing file in its own order (rule references of the
+                # whole file before class references): it must name one of the references that fail at that point
+                names = sorted({(nstr(r["q"]) + "." if r["q"] is not None else "") + r["n"] for r in m["failing"]})
+                if obs.get("name") not in names:
+                    return (f"unresolvable name: implementation reports {obs.get('name')!r} ({obs.get('msg', '')}), "
+                            f"in the model the references of {nstr(m['ns'])} that fail there are {names}")
             return None
         if obs["load"] != "ok":
             return f"model loads the grammars, implementation fails: {obs['load']} {obs.get('msg', '')}"
